@@ -244,6 +244,22 @@ Proof.
 Qed.
 Print Assumptions C26_no_deadlock_needs_done.
 
+(* ---- at most [c_nw] tasks run at the same time ------------------------------------------------------ *)
+(* at every moment of every trace (l2 = any suffix of the newest-first log = the log at an earlier moment)
+   the number of tasks begun and not yet ended is between 0 and the number of workers *)
+Theorem C26_open_tasks_bounded : forall c tr s l1 l2, c_fixed c = true -> steps c init tr s ->
+  log s = l1 ++ l2 ->
+  length (filter is_end_ev l2) <= length (filter is_beg_ev l2) <= length (filter is_end_ev l2) + c_nw c.
+Proof. exact open_tasks_bounded. Qed.
+Print Assumptions C26_open_tasks_bounded.
+
+Example C26_open_tasks_bounded_ex : exists l1 l2,
+  log ex_s = l1 ++ l2 /\ length (filter is_beg_ev l2) = length (filter is_end_ev l2) + c_nw ex_c.
+Proof.
+  exists [EvStopRet; EvStop; EvResult 1 RNil; EvEnd 2 true; EvBegin 2; EvResult 0 (RErr 1); EvEnd 0 true; EvEnd 1 false].
+  eexists. split; vm_compute; reflexivity.
+Qed.
+
 (* ---- the code before fix commit 0eb992d (c_fixed = false) deadlocks --------------------------------- *)
 (* one worker, job 0 = two tasks, the first fails: the worker sees the error at the second task and exits;
    job 0 still completes, but job 1 (submitted and closed) never gets a worker: its task is held by the
